@@ -1900,7 +1900,42 @@ async def registration_during_a_service_tasks_stop():
     return log == want and not running, f"log={log} (expected {want}), still running={sorted(running)}"
 
 
-SCENARIOS = {f.__name__: f for f in (failed_adds_of_unusual_shapes_change_nothing, partly_shadowed_factory_releases_its_waiter, refused_resource_of_a_failed_start_leaves_no_callback, registration_during_a_service_tasks_stop, annotations_mean_what_they_say, default_name_is_remapped_only_while_starting, parent_is_the_current_context_itself, refused_entry_changes_nothing, left_from_another_task_is_closed_all_the_same, factories_waiting_on_each_other_complete, nested_tree_publications_release_waiters, timeout_watches_every_tree, every_registration_of_a_component_is_torn_down, generic_alias_types_are_found_by_every_lookup, optional_injection_is_the_optional_lookup, start_value_and_failed_starts, hard_coded_kwargs_reach_the_child_as_they_are,
+async def queued_event_keeps_its_source():
+    """C10: a yielded event is stamped with the dispatching instance as source -- also when the subscriber consumes it
+    only after the dispatcher has dropped its own last reference to that instance (the event queued in a stream; the
+    event handed to a wait_event() task that has not run yet)"""
+    import gc
+    from asphalt.core import Event, Signal
+
+    class Owner:
+        sig = Signal(Event)
+
+        def __init__(self, tag):
+            self.tag = tag
+    out = {}
+    owner = Owner("first")
+    async with owner.sig.stream_events() as stream:
+        owner.sig.dispatch(Event())
+        del owner
+        gc.collect()
+        ev = await stream.__anext__()
+        out["stream"] = getattr(ev.source, "tag", None) == "first" and ev.topic == "sig"
+    owner = Owner("second")
+    box = []
+
+    async def waiter(sig):
+        box.append(await sig.wait_event())
+    async with anyio.create_task_group() as tg:
+        tg.start_soon(waiter, owner.sig)
+        await anyio.sleep(0.05)
+        owner.sig.dispatch(Event())
+        del owner
+        gc.collect()
+    out["wait_event"] = bool(box) and getattr(box[0].source, "tag", None) == "second"
+    return all(out.values()), f"{out}"
+
+
+SCENARIOS = {f.__name__: f for f in (queued_event_keeps_its_source, failed_adds_of_unusual_shapes_change_nothing, partly_shadowed_factory_releases_its_waiter, refused_resource_of_a_failed_start_leaves_no_callback, registration_during_a_service_tasks_stop, annotations_mean_what_they_say, default_name_is_remapped_only_while_starting, parent_is_the_current_context_itself, refused_entry_changes_nothing, left_from_another_task_is_closed_all_the_same, factories_waiting_on_each_other_complete, nested_tree_publications_release_waiters, timeout_watches_every_tree, every_registration_of_a_component_is_torn_down, generic_alias_types_are_found_by_every_lookup, optional_injection_is_the_optional_lookup, start_value_and_failed_starts, hard_coded_kwargs_reach_the_child_as_they_are,
                                      overriding_signal_has_its_own_event_class, second_half_runs_at_the_outer_teardown, rejected_add_registers_no_callback,
                                      wait_finished_means_completely_finished, dead_iterator_inside_its_block_disturbs_nobody,
                                      racing_lookups_generate_once, failing_factory_leaves_the_current_context_alone,
